@@ -293,6 +293,37 @@ except BaseException as e:
 '''
 
 
+SESSION_CODE = r'''
+import json, sys
+sys.path.insert(0, sys.argv[3])
+from generator import model
+from harness.probe_plugin import readback
+docs = [json.load(open(p)) for p in json.load(open(sys.argv[1]))]
+out = {}
+try:
+    m1 = model.create_lsp_model(docs)
+    out["rb1"] = readback(m1)
+    m2 = model.create_lsp_model(docs)          # the caller's documents are reused as they are
+    out["rb2"] = readback(m2)
+    r = m1 == m2
+    out["eq"] = "T" if r is True else "F" if r is False else "nonbool"
+    out["rb3"] = readback(model.create_lsp_model([docs[0]]))
+    out["ok"] = True
+except BaseException as e:
+    out["ok"] = False
+    out["exc"] = type(e).__name__
+json.dump(out, open(sys.argv[2], "w"))
+'''
+
+
+def run_session(files, work, tag):
+    lst, outp = os.path.join(work, "sess-%s.json" % tag), os.path.join(work, "sessout-%s.json" % tag)
+    json.dump(files, open(lst, "w"))
+    env = dict(os.environ, PYTHONPATH=common.REPO)
+    subprocess.run([common.PY, "-c", SESSION_CODE, lst, outp, common.VERIF], cwd=common.REPO, env=env, stdout=subprocess.PIPE, stderr=subprocess.PIPE, timeout=300)
+    return json.load(open(outp)) if os.path.exists(outp) else {"ok": False, "exc": "NoOutput"}
+
+
 def run_eq(a, b, work, tag):
     pa, pb = os.path.join(work, "eqa-%s.json" % tag), os.path.join(work, "eqb-%s.json" % tag)
     json.dump(a, open(pa, "w"))
@@ -323,7 +354,7 @@ def check(tier):
         def do_case(ic):
             i, c = ic
             tag = str(i)
-            if c["c"] == "load":
+            if c["c"] in ("load", "session"):
                 if c["files"] == "full":
                     docs = [full]
                 elif c["files"] == "trimmed":
@@ -344,6 +375,16 @@ def check(tier):
                            "typeAliases": []}
                     docs = [trim, ext]
                 files = [wfile(d, "m-%s-%d.json" % (tag, k)) for k, d in enumerate(docs)]
+                if c["c"] == "session":
+                    r = run_session(files, work, tag)
+                    enc_docs = [encode(d) for d in docs]
+                    if not r.get("ok"):
+                        return [{"e": "Load", "docs": enc_docs, "readback": {"k": "null"}, "ok": False}], c
+                    merged = encode(r["rb1"])
+                    return [{"e": "Load", "docs": enc_docs, "readback": encode(r["rb1"]), "ok": True},
+                            {"e": "Load", "docs": enc_docs, "readback": encode(r["rb2"]), "ok": True},
+                            {"e": "Eq", "kind": "same", "a": merged, "b": merged, "res": r["eq"] if r["eq"] in ("T", "F") else "raise", "detail": r["eq"]},
+                            {"e": "Load", "docs": enc_docs[:1], "readback": encode(r["rb3"]), "ok": True}], c
                 rcode, rb, _ = run_cli(files, "probe", work, tag)
                 ok = rcode == 0 and rb is not None
                 return [{"e": "Load", "docs": [encode(d) for d in docs], "readback": encode(rb["model"]) if ok else {"k": "null"}, "ok": ok}], c
@@ -389,8 +430,8 @@ def check(tier):
                     sig = {"clause": clause, "kind": ev["kind"], "detail": ev["detail"]}
                     small = {"e": "Eq", "kind": ev["kind"], "res": ev["detail"]}
                 else:
-                    sig = {"clause": clause, "files": c["files"]}
-                    small = {"e": "Load", "files": c["files"], "ok": ev["ok"]}
+                    sig = {"clause": clause, "files": c["files"], "case": c["c"]}
+                    small = {"e": "Load", "case": c["c"], "files": c["files"], "ok": ev["ok"]}
                 rep.violation(sig, small)
     finally:
         shutil.rmtree(work, ignore_errors=True)
